@@ -13,6 +13,9 @@ pub struct KeepAlive {
     pub ping: u64,
     pub pong: u64,
     pub full: bool,
+    /// seconds the connection stays unregistered before it sends NICK/USER; the
+    /// keep-alive schedule counts from the completed registration
+    pub delay: u64,
 }
 
 impl KeepAlive {
@@ -52,7 +55,11 @@ impl KeepAlive {
 
 impl Scenario for KeepAlive {
     fn name(&self) -> String {
-        format!("c17-ping{}-pong{}", self.ping, self.pong)
+        if self.delay == 0 {
+            format!("c17-ping{}-pong{}", self.ping, self.pong)
+        } else {
+            format!("c17-ping{}-pong{}-late{}", self.ping, self.pong, self.delay)
+        }
     }
     fn slots(&self) -> usize {
         1
@@ -64,7 +71,20 @@ impl Scenario for KeepAlive {
         self.cfg().spec_cfg()
     }
     fn prelude(&self, w: &mut World) -> Result<(), crate::world::MachineryError> {
-        w.register(0, "cli", "cu")
+        if self.delay == 0 {
+            return w.register(0, "cli", "cu");
+        }
+        w.connect(0)?;
+        for _ in 0..self.delay {
+            w.tick()?;
+        }
+        // nothing is owed to (or asked of) a connection that has not registered
+        let early = w.take_lines(0);
+        if early.iter().any(|l| l.contains(" PING ")) {
+            return Err(crate::world::MachineryError(format!("PRELUDE-VIOLATION a PING was sent to a connection that has not registered: {:?}", early)));
+        }
+        w.send(0, "NICK cli")?;
+        w.send(0, "USER cu 8 * :Real cu")
     }
     fn key_extra(&self, w: &World) -> u64 {
         w.now
@@ -104,13 +124,15 @@ impl Scenario for KeepAlive {
             Act::Tick => {
                 if pre.life[0] == Life::Live {
                     let pinged = obs.lines[0].iter().any(|l| l.contains(" PING "));
-                    let due = post.now % self.ping == 0;
+                    // seconds since the registration completed (the prelude may have waited before it)
+                    let since_reg = post.now - self.delay;
+                    let due = since_reg % self.ping == 0;
                     if pinged {
                         goals.insert("server-ping-seen".into());
                     }
                     // a connection that is being dropped in this very second need not be pinged
                     if due != pinged && post.life[0] == Life::Live {
-                        out.push(finding("ping-schedule", format!("at t={}s (ping_timeout={}): server PING sent={} expected={}", post.now, self.ping, pinged, due)));
+                        out.push(finding("ping-schedule", format!("{}s after registration (ping_timeout={}): server PING sent={} expected={}", since_reg, self.ping, pinged, due)));
                     }
                     if post.life[0] != Life::Live && !obs.lines[0].iter().any(|l| l.contains("ERROR")) {
                         out.push(finding("drop-without-error", format!("at t={}s the client was disconnected without an ERROR line: {:?}", post.now, obs.lines[0])));
@@ -167,8 +189,14 @@ pub fn plan(quick: bool) -> Plan {
     for ping in [1u64, 2, 3] {
         for pong in [1u64, 2, 3] {
             let horizon = if quick { (ping + pong + 3) as usize } else { (2 * ping + 2 * pong + 4) as usize };
-            parts.push(Part::Bfs(Box::new(KeepAlive { ping, pong, full: !quick }), lim(horizon, 2_000_000, if quick { 5.0 } else { 200.0 })));
+            parts.push(Part::Bfs(Box::new(KeepAlive { ping, pong, full: !quick, delay: 0 }), lim(horizon, 2_000_000, if quick { 5.0 } else { 200.0 })));
         }
+    }
+    // registration completed 1 s (and, for ping_timeout 3, 2 s) after the connection was opened:
+    // the schedule counts from the registration, not from the accept
+    for (ping, pong, delay) in [(2u64, 1u64, 1u64), (3, 1, 1), (3, 2, 2), (2, 2, 1)] {
+        let horizon = if quick { (ping + pong + 3) as usize } else { (2 * ping + 2 * pong + 4) as usize };
+        parts.push(Part::Bfs(Box::new(KeepAlive { ping, pong, full: !quick, delay }), lim(horizon, 2_000_000, if quick { 5.0 } else { 200.0 })));
     }
     Plan {
         property: "C17".into(),
